@@ -229,7 +229,7 @@ class Builder:
             else:
                 mod = h.Module(name=m.get("name"))
             for i, (name, o) in enumerate(order):
-                if i % 2 == 0:
+                if i % 2 == 0 or name.startswith("_"):  # (an underscore name given by setattr would be a private Python attribute)
                     mod.add(o, name=name)
                 else:
                     setattr(mod, name, o)
